@@ -15,7 +15,8 @@ RULE = ("Rectangular layouts up to 5x4 over each domain's alphabet (GridWorld '.
         "and one-step physics for the plain grid world (every cell x every action enumerated). Non-trivial: layout "
         "with a wall and >=4 cells (grid domains) / any parameterised instance (tiger, load-unload); distinct by spec "
         "hash."
-        ' Also: role arguments as list / set / frozenset / str, a feature_rewards dict shared with an earlier world.')
+        ' Also: role arguments as list / set / frozenset / str, a feature_rewards dict shared with an earlier world.'
+        ' A pickle round trip of the world; value-equal terminal-state objects.')
 ASSUMPTIONS = ["rows are passed un-indented (GridWorld strips only the whole string)",
                "ValueIteration is capped at 300 iterations: only finiteness of the planned values is asserted"]
 
